@@ -327,7 +327,8 @@ def run_job(job):
             reqs.append('error: %s: %s' % (type(e).__name__, e))
     out['requires'] = reqs
     target = job['target']
-    call_args = dict(args)
+    call_args = {k: v for k, v in args.items()
+                 if k not in job.get('ghosts', [])}
     with warnings.catch_warnings(record=True) as wlist:
         warnings.simplefilter('always')
         try:
